@@ -860,6 +860,13 @@ func (g *GoFakeS3) deleteMulti(bucket string, w http.ResponseWriter, r *http.Req
 
 		out, err = g.storage.DeleteMulti(bucket, keys...)
 	} else {
+		// As for the versionId query parameter (see versionFromQuery), 'null'
+		// names the version without an ID; backends do not know that string.
+		for i := range in.Objects {
+			if in.Objects[i].VersionID == "null" {
+				in.Objects[i].VersionID = ""
+			}
+		}
 		out, err = g.versioned.DeleteMultiVersions(bucket, in.Objects...)
 	}
 
